@@ -11,9 +11,6 @@
 //!      value is above +zone and crosses signal line downwards, returns full sell signal."
 use super::*;
 
-/// development switch: `false` reproduces what the implementation feeds into the numerator
-/// (close - PREVIOUS close, previous close started at the first OPEN, averages started at 0)
-const DOCUMENTED_NUMERATOR: bool = true;
 
 #[derive(Clone)]
 pub struct RelativeVigorIndex {
@@ -27,11 +24,14 @@ pub struct RelativeVigorIndex {
 	/// has any candle (incl. the prehistory) had a range high > low
 	ranged: bool,
 	x: CrossD,
+	/// implementation reading (recorded discrepancies): numerator close - PREVIOUS close (started at the first
+	/// open, averages started at 0); signal #2 with the opposite sign
+	follow_impl: bool,
 }
 
 impl IndRef for RelativeVigorIndex {
 	fn values(&mut self, c: &RC) -> Vec<Q> {
-		let co = if DOCUMENTED_NUMERATOR { c.c - c.o } else { c.c - self.prev_close };
+		let co = if !self.follow_impl { c.c - c.o } else { c.c - self.prev_close };
 		self.prev_close = c.c;
 		let hl = c.h - c.l;
 		self.ranged |= hl != 0.0;
@@ -57,20 +57,27 @@ impl IndRef for RelativeVigorIndex {
 		let (rvi, sig) = (own[0], own[1]);
 		let x = self.x.cross(rvi, sig);
 		let s2 = (x > 0 && rvi < -self.zone) as i32 - (x < 0 && rvi > self.zone) as i32;
+		let s2 = if self.follow_impl { (x < 0 && rvi > self.zone && sig > self.zone) as i32 - (x > 0 && rvi < -self.zone && sig < -self.zone) as i32 } else { s2 };
 		vec![sig_sign(x), sig_sign(s2)]
 	}
 	indref!(RelativeVigorIndex);
 }
 
 pub fn make(cfg: &Cfg, c0: &RC) -> Option<Box<dyn IndRef>> {
+	build(cfg, c0, false)
+}
+pub fn make_alt(cfg: &Cfg, c0: &RC) -> Option<Box<dyn IndRef>> {
+	build(cfg, c0, true)
+}
+fn build(cfg: &Cfg, c0: &RC, follow_impl: bool) -> Option<Box<dyn IndRef>> {
 	let n = cfg.int("period1");
 	let k = cfg.int("period2");
 	// constant prehistory: every bar is c0, so close - open and high - low are those of c0
-	let co0 = if DOCUMENTED_NUMERATOR { c0.c - c0.o } else { 0.0 };
+	let co0 = if !follow_impl { c0.c - c0.o } else { 0.0 };
 	let hl0 = c0.h - c0.l;
 	let rvi0 = if hl0 == 0.0 {
 		Q::exact(0.0) // † as above
-	} else if DOCUMENTED_NUMERATOR {
+	} else if !follow_impl {
 		Q::exact(co0) / Q::exact(hl0)
 	} else {
 		Q::exact(0.0)
@@ -86,5 +93,6 @@ pub fn make(cfg: &Cfg, c0: &RC) -> Option<Box<dyn IndRef>> {
 		ranged: hl0 != 0.0,
 		// main - signal on the constant prehistory
 		x: CrossD::new(0.0),
+		follow_impl,
 	}))
 }
